@@ -29,7 +29,7 @@ fn pick_id(rng: &mut Rng, st: &RealState) -> usize {
     }
 }
 
-fn random_op(rng: &mut Rng, st: &RealState) -> String {
+pub fn random_op(rng: &mut Rng, st: &RealState) -> String {
     let slots = slots_of(&st.tree);
     match rng.below(16) {
         0 | 1 => format!("ar.add_child\t{}\t{}\t{}", pick_id(rng, st), len_tok(rng), if rng.chance(1, 2) { format!("h{}", hex(&format!("N{}", rng.below(1000)))) } else { "-".into() }),
